@@ -297,6 +297,16 @@ func nativeReplayOpt(dir, harness string, paths []string, race bool) (map[string
 	// line-preserving source rewrites for native replay only: the virtual clock and lock hooks
 	srcs, _ := filepath.Glob(filepath.Join(pkgDir, "*.go"))
 	replace := map[string]string{}
+	typed := map[string]string{}
+	for _, rw := range loadRewrites(hdir) {
+		if rw.Typed {
+			var terr string
+			typed, terr = typedConnRewrite(pkgDir, modfile, "verif", nil)
+			if terr != "" {
+				return nil, terr
+			}
+		}
+	}
 	for _, src := range srcs {
 		base := filepath.Base(src)
 		if strings.HasSuffix(base, "_test.go") {
@@ -312,6 +322,9 @@ func nativeReplayOpt(dir, harness string, paths []string, race bool) (map[string
 		}
 		s := string(b)
 		ns := s
+		if t, ok := typed[src]; ok {
+			ns = t
+		}
 		if usesNow {
 			ns = strings.ReplaceAll(ns, "time.Now()", "verifNow()")
 		}
@@ -324,7 +337,7 @@ func nativeReplayOpt(dir, harness string, paths []string, race bool) (map[string
 			ns = strings.ReplaceAll(ns, "atomic.LoadInt32(", "verifAtomicLoadI32(")
 		}
 		for _, rw := range loadRewrites(hdir) {
-			if rw.File == base {
+			if rw.File == base && !rw.Typed {
 				if rw.Regex {
 					ns = regexp.MustCompile(rw.From).ReplaceAllString(ns, rw.To)
 				} else {
@@ -469,6 +482,7 @@ type rewriteRule struct {
 	From  string `json:"from"`
 	To    string `json:"to"`
 	Regex bool   `json:"regex"`
+	Typed bool   `json:"typed"` // run the go/types driven rewrite of typedrw.go on the package
 }
 
 func loadRewrites(hdir string) []rewriteRule {
